@@ -188,7 +188,18 @@ pub fn replay(args: &Args, s: &mut Summary) {
                     }
                 }
                 "C09" => match (&r, want_res) {
-                    (Ok(_), "ok") => {}
+                    (Ok(_), "ok") => {
+                        // "Interrupted conditions are retried transparently and do not change the outcome": the same
+                        // chunks without the interruptions give the same result
+                        if fault.is_none() && sc.contains(&0) {
+                            let plain: Vec<usize> = sc.iter().cloned().filter(|x| *x != 0).collect();
+                            let r2 = guarded("reader without interruptions", || run_recording(ScheduledReader::new(&file, plain.clone(), rest, None)));
+                            s.checks += 1;
+                            if r2.as_ref().ok() != Some(&r) {
+                                s.mismatch("interruption-changes-the-outcome", json!({"file": file, "sched": sc, "rest": rest, "got": format!("{r:?}"), "without": format!("{r2:?}")}));
+                            }
+                        }
+                    }
                     (Ok((_, d)), _) => s.mismatch("fault-swallowed", json!({"file": file, "sched": sc, "rest": rest, "fault": c["fault"], "got_deliveries": d})),
                     (Err(k), "ok") => s.mismatch("error-without-fault", json!({"file": file, "sched": sc, "rest": rest, "got": format!("{k:?}")})),
                     (Err(k), _) => {
